@@ -29,6 +29,10 @@ CHECKS = {
  "C08": ("E1 per ordered member tuple: unmarshal(Union[...], x) on x in J vs the first success, in declaration order, of the independently "
          "built member routines (any Exception = rejection), None honoured at every position, ValueError iff all reject; same for marshal.",
          "4/C08", "CrossHair symbolic execution of the union routines against a first-acceptor oracle, z3 path exhaustion, native replay"),
+ "C18": ("E1 value-symbolic: serdes.iteritems/itervalues on sequences, sets, mappings, one-shot iterators/generators of symbolic length "
+         "over unbounded symbolic ints / pairs / triples, symbolic str/bytes, and instances of ten structured flavours, against a "
+         "15-line reference; input compared with a rebuilt snapshot.", "4/C18",
+         "CrossHair symbolic execution of serdes.iteritems/itervalues, z3 path exhaustion, native replay"),
 }
 NA = {
  "C17": "flat catalogue of CPython type objects compared with CPython's own issubclass/typing internals: neither side can be encoded for a solver and there is no value, shape, state or history to make symbolic (DESIGN.md section 7)",
